@@ -96,7 +96,7 @@ func overlayFiles(ls *loadSpec) map[string][]byte {
 	return ov
 }
 
-func load(ls *loadSpec) (*ssa.Package, *ssa.Function) {
+func load(ls *loadSpec) *ssa.Package {
 	cfg := &packages.Config{Mode: packages.LoadAllSyntax, Dir: ls.Dir, Overlay: overlayFiles(ls),
 		Env: append(os.Environ(), "GOFLAGS=-mod=mod", "GOPROXY=off", "GOSUMDB=off", "GOTOOLCHAIN=local")}
 	pat := ls.Pkg
@@ -113,18 +113,7 @@ func load(ls *loadSpec) (*ssa.Package, *ssa.Function) {
 	_, spkgs := ssautil.AllPackages(pkgs, ssa.InstantiateGenerics)
 	mainpkg := spkgs[0]
 	mainpkg.Build()
-	fn := mainpkg.Func(ls.Fn)
-	if fn == nil {
-		fatal("no harness function %s", ls.Fn)
-	}
-	for target, h := range ls.Overrides {
-		hf := mainpkg.Func(h)
-		if hf == nil {
-			fatal("override %s: no harness function %s", target, h)
-		}
-		interp.RegisterOverride(target, hf)
-	}
-	return mainpkg, fn
+	return mainpkg
 }
 
 func fatal(f string, a ...interface{}) {
@@ -184,13 +173,9 @@ func (ls *loadSpec) args() []string {
 		os_ = append(os_, k+"="+v)
 	}
 	sort.Strings(os_)
-	a := []string{"-dir", ls.Dir, "-pkg", ls.Pkg, "-files", strings.Join(ls.Files, ","), "-fn", ls.Fn,
-		"-params", strings.Join(ps, ","), "-override", strings.Join(os_, ","),
-		"-timeout", strconv.Itoa(ls.TimeoutMS), "-maxsteps", strconv.FormatInt(ls.MaxSteps, 10)}
-	if ls.XCheck {
-		a = append(a, "-xcheck")
-	}
-	return a
+	_ = ps
+	_ = os_
+	return []string{"-dir", ls.Dir, "-pkg", ls.Pkg, "-files", strings.Join(ls.Files, ",")}
 }
 
 func workerMain(args []string) {
@@ -198,8 +183,8 @@ func workerMain(args []string) {
 	get := loadFlags(fs)
 	fs.Parse(args)
 	ls := get()
-	mainpkg, fn := load(ls)
-	w := interp.NewWorker(mainpkg, fn, ls.Params, ls.TimeoutMS, ls.MaxSteps, ls.XCheck)
+	mainpkg := load(ls)
+	w := interp.NewWorker(mainpkg)
 	defer w.Close()
 	out := bufio.NewWriter(os.Stdout)
 	enc := json.NewEncoder(out)
